@@ -451,9 +451,15 @@ XPathProcessorImpl::tokenize(const XalanDOMString&  pat)
                 {
                     startSubstring = i;
 
-                    if (XalanXMLChar::isDigit(c) == true)
+                    // A number is Digits ('.' Digits?)? or '.' Digits.  It
+                    // ends at the first character that cannot continue it,
+                    // so ".5." and ".5-" are not single (number) tokens.
+                    if (XalanXMLChar::isDigit(c) == true ||
+                        (c == XalanUnicode::charFullStop &&
+                         i + 1 < nChars &&
+                         XalanXMLChar::isDigit(pat[i + 1]) == true))
                     {
-                        bool    gotFullStop = false;
+                        bool    gotFullStop = c == XalanUnicode::charFullStop;
 
                         while(i < nChars - 1)
                         {
@@ -2682,6 +2688,15 @@ XPathProcessorImpl::QName()
         nextToken();
 
         consumeExpected(XalanUnicode::charColon);
+    }
+
+    // The local part must be a name: "$1", "$'a'", "$*" and a '$' with
+    // nothing after it are not variable references.
+    if (XalanQName::isValidNCName(m_token) == false)
+    {
+        error(
+            XalanMessages::NotValidNCName_1Param,
+            m_token);
     }
 
     m_expression->pushCurrentTokenOnOpCodeMap();
